@@ -39,7 +39,7 @@ package forwarder
 //@ func handleMartianErrorStatus
 //@ property C18 C12
 //@ requires req != nil
-//@ modifies martian.ErrorStatus.Status, martian.ErrorStatus.Err
+//@ pure
 //@ ensures err is martian.ErrorStatus ==> code == err.(martian.ErrorStatus).Status
 //@ ensures errStatus(err) == -1 ==> code == 0
 
@@ -74,3 +74,41 @@ package forwarder
 //@ pure
 //@ ensures result == nil || result is denyError
 //@ ensures parseOK(toLower(urlHostname(req.URL))) && (isLoopbackIP(toLower(urlHostname(req.URL))) || isUnspecIP(toLower(urlHostname(req.URL)))) ==> result is denyError
+
+// ---- error classification (C12 part 2, C04 L4.2) ----
+
+//@ func handleAuthenticationError
+//@ property C04 C12
+//@ requires req != nil
+//@ pure
+//@ ensures errIs(err, ErrProxyAuthentication) ==> code == 407
+//@ ensures !errIs(err, ErrProxyAuthentication) ==> code == 0
+
+//@ func handleContextCancelationError
+//@ property C12
+//@ pure
+//@ ensures code == 0 || code == 500
+
+//@ func handleDenyError, handleProhibitedError, handleWindowsNetError, handleNetError, handleTLSRecordHeader, handleTLSCertificateError, handleTLSECHRejectionError, handleTLSAlertError, handleStatusText
+//@ trusted
+//@ pure
+//@ ensures code == 0 || (400 <= code && code < 600)
+
+//@ globalinv errIs(ErrProxyAuthentication, ErrProxyAuthentication)
+
+// errorResponse (C12, C04 L4.2): the status is that of the first classifier
+// that claims the error, 500 if none does; an authentication failure is a 407
+// and carries a Proxy-Authenticate challenge; the body length is declared.
+//@ func (*HTTPProxy).errorResponse
+//@ property C04 C12
+//@ requires hp != nil && req != nil && err != nil && hp.metrics != nil && hp.log != nil
+//@ modifies *
+//@ ensures result != nil && result.Header != nil && result.StatusCode != 0
+//@ ensures result.StatusCode == 407 ==> hasPA(result.Header)
+//@ ensures ("X-Forwarder-Error" in result.Header)
+//@ loop 0:
+//@   invariant hp.log != nil && hp.metrics != nil
+//@   invariant len(handlers) == 12 && handlers[0] == handleWindowsNetError && handlers[1] == handleNetError && handlers[2] == handleTLSRecordHeader && handlers[3] == handleTLSCertificateError && handlers[4] == handleTLSECHRejectionError && handlers[5] == handleTLSAlertError && handlers[6] == handleMartianErrorStatus && handlers[7] == handleAuthenticationError && handlers[8] == handleDenyError && handlers[9] == handleProhibitedError && handlers[10] == handleContextCancelationError && handlers[11] == handleStatusText
+
+//@ pred hasPA(h http.Header) = ("Proxy-Authenticate" in h) && len(h["Proxy-Authenticate"]) > 0
+//@ axiom canon("Proxy-Authenticate") == "Proxy-Authenticate" && canon("X-Forwarder-Error") == "X-Forwarder-Error" && canon("Content-Type") == "Content-Type"
